@@ -64,20 +64,24 @@ func (c *churner) pump() {
 
 func (c *churner) subscribe(id uint32) {
 	c.log.put(map[string]interface{}{"k": "inv", "c": c.name, "op": opRec("sub", 0, "", c.name)})
-	if err := c.register(id); err != nil {
-		hlib.Fatal("registerEvent %s: %v", c.name, err)
+	err := c.register(id)
+	c.log.put(map[string]interface{}{"k": "res", "c": c.name, "r": retRec(errRet(err))})
+	if err != nil {
+		c.dead = true // a failed registration is a result TraceProperty does not explain
+		return
 	}
 	c.reg = true
-	c.log.put(map[string]interface{}{"k": "res", "c": c.name, "r": retRec(retJ{})})
 }
 
 func (c *churner) unsubscribe(id uint32) {
 	c.log.put(map[string]interface{}{"k": "inv", "c": c.name, "op": opRec("unsub", 0, "", c.name)})
-	if err := c.unregister(id); err != nil {
-		hlib.Fatal("unregisterEvent %s: %v", c.name, err)
+	err := c.unregister(id)
+	c.log.put(map[string]interface{}{"k": "res", "c": c.name, "r": retRec(errRet(err))})
+	if err != nil {
+		c.dead = true
+		return
 	}
 	c.reg = false
-	c.log.put(map[string]interface{}{"k": "res", "c": c.name, "r": retRec(retJ{})})
 }
 
 // disconnect closes the connection abruptly and waits for the server to forget
